@@ -866,13 +866,13 @@ impl ModulePath {
             return ModulePath(Self::normalize_path(specifier));
         }
 
-        // Relative path - resolve against base
-        let base_dir = base.and_then(|b| b.parent()).unwrap_or("");
-
-        let combined = if base_dir.is_empty() {
-            specifier.to_string()
-        } else {
-            format!("{}/{}", base_dir, specifier)
+        // Relative path - resolve against the directory of the base.  The directory of a base
+        // directly under the root ("/main.ts") is the empty string: it must still be joined, so
+        // that "./m.ts" becomes "/m.ts"; only a base without any directory leaves the specifier
+        // relative.
+        let combined = match base.and_then(|b| b.parent()) {
+            Some(base_dir) => format!("{}/{}", base_dir, specifier),
+            None => specifier.to_string(),
         };
 
         ModulePath(Self::normalize_path(&combined))
